@@ -82,6 +82,14 @@ impl LogWriter for Recorder {
         Ok(())
     }
     fn max_log_level(&self) -> LevelFilter {
+        // user code that runs inside a reconfiguration: a scheduling point for harnesses that
+        // list it (flexi_logger asks every additional writer for its ceiling before it
+        // publishes the global max level)
+        if let Some(c) = crate::hooks::current_ctx() {
+            if let Some(s) = c.sched.as_ref() {
+                s.sync_op(flexi_logger::verif_hooks::Op::Point("writer_max_level"));
+            }
+        }
         self.max_level
     }
     fn format(&mut self, format: FormatFunction) {
